@@ -119,6 +119,8 @@ class PipeOps(FullOps):
         return frozenset()
 
     def to_set(self, v, node):
+        if isinstance(v, ListV) and v.it is not None:
+            v = self.consume(v, node)
         if isinstance(v, ListV) and v.items is not None and all(isinstance(x, TV) and x.note == "key" for x in v.items) and v.items:
             return SetV(items=tuple(v.items), atoms=self.atoms_of(v))
         if isinstance(v, ListV) and v.items is None:
@@ -177,7 +179,7 @@ class PipeOps(FullOps):
         if name == "difference" and args:
             return self.set_binop(s, ast.Sub(), self.to_set(args[0], node), node)
         if self.strict_atoms and name in ("issubset", "issuperset", "isdisjoint"):
-            o = self.to_set(args[0], node)
+            o = self.to_set(self.consume(args[0], node, full=False), node)
             if isinstance(o, SetV):
                 a, b = self.atoms_of(s), self.atoms_of(o)
                 return Const({"issubset": a <= b, "issuperset": a >= b, "isdisjoint": not (a & b)}[name])
@@ -201,13 +203,17 @@ class PipeOps(FullOps):
                     return SetV(items=()) if not d else SetV(items=None, elem=self.set_elem(s) or self.set_elem(o), atoms=frozenset(d))
                 return SetV(items=None, elem=self.set_elem(s) or self.set_elem(o), atoms=frozenset([f"(^:{'+'.join(sorted(a))}:{'+'.join(sorted(b))})"]))
         if name == "isdisjoint" and args:
-            o = self.to_set(args[0], node)
+            raw = args[0]
+            o = self.to_set(self.consume(raw, node, full=False), node)  # stops at the first common element
             inter = self.set_binop(s, ast.BitAnd(), o, node) if isinstance(o, SetV) else None
             if isinstance(inter, SetV):
                 if inter.items is not None and len(inter.items) == 0:
+                    self.exhausted_if(raw, None, None)  # disjoint: the iterator was read to its end
                     return Const(True)
                 if self.atoms_of(inter):
-                    return TV(kind="pybool", dtype="Bool", note="nonempty?" + "+".join(sorted(self.atoms_of(inter))) + "|neg")
+                    key = "nonempty?" + "+".join(sorted(self.atoms_of(inter)))
+                    self.exhausted_if(raw, key, False)  # ... on the paths where the answer is "disjoint"
+                    return TV(kind="pybool", dtype="Bool", note=key + "|neg")
         return super().set_method(s, name, args, kwargs, node, env)
 
     def comp_abstract(self, r, kind, info, lid, filtered, n, env):
@@ -276,6 +282,8 @@ class PipeOps(FullOps):
         c = container.payload if isinstance(container, ObjV) and container.payload is not None else container
         if isinstance(c, DictV):
             c = self.dict_keys(c)
+        if isinstance(c, ListV) and c.it is not None:
+            c = self.consume(c, node, full=False)  # `x in iterator` advances it up to the first match
         it = tv_of(item)
         if isinstance(c, (SetV, ListV)) and c.items is None and isinstance(it, TV) and it.note == "key":
             ca, ia = sorted(self.atoms_of(c)), sorted(it.origin)
@@ -695,6 +703,8 @@ class PipeOps(FullOps):
             self.pev("setattr", node, attr=args[1].v if isinstance(args[1], Const) else "?", target=repr(args[0]))
             return NONE
         if fn == "zip":
+            strict = isinstance(kwargs.get("strict"), Const) and kwargs["strict"].v is True
+            args = [self.consume(a, node, full=strict) for a in args]
             lists = [self.to_list(a, "list", node) for a in args]
             self.pev("zip", node, orders=[(repr(l.order) if l.items is None or l.order is not None else "(('literal-sequence',), 'same')") if isinstance(l, ListV) else "?" for l in lists],
                      in_loop=bool(self.loop_orders))
@@ -773,9 +783,4 @@ class PipeOps(FullOps):
             return ListV(items=None, elem=TV(kind="pyint", note="prefix-sum-next", origin=frozenset(self.atoms_of(lst)), poly=Poly.sym(f"psum[{key}]") + wp), kind="list", order=lst.order)
         return super().accumulate(v, node, initial)
 
-
-def join_all(items):
-    out = None
-    for x in items:
-        out = x if out is None else join(out, x)
-    return out
+from .values import join_all  # noqa: E402  (kept importable from here)
